@@ -23,7 +23,7 @@ func init() {
 			"predictions exactly at the two clipping bounds 1e-12 and 1-1e-12 are excluded, as in the statement",
 			"tolerance of the leaf variant: 1e-9 relative + the conditioning bound 4e-16 x ((1-t)/(1-p)^2 + t/p^2)/N of the closed form; upstream programs keep p in (0.002, 0.998)",
 		},
-		FloorQuick: 2000, FloorThor: 15000,
+		FloorQuick: 2000, FloorThor: 3000,
 		Run: runC13,
 	})
 }
